@@ -362,6 +362,12 @@ def empty_input_test(g, pol) -> bool:
         return True
     if t[0] == "or":
         return all(empty_input_test(x, True) for x in t[1])
+    if t[0] == "and":
+        # `X is not None and len(X) == 0`
+        given = [x for x in t[1] if x[0] == "cmp" and x[1] == "is not" and {x[2][0], x[3][0]} == {"param", "const"}
+                 and ("const", None) in (x[2], x[3])]
+        rest = [x for x in t[1] if x not in given]
+        return bool(rest) and all(empty_input_test(x, True) for x in rest)
     return False
 
 
